@@ -515,6 +515,10 @@ def same_numbers(k, x, y):
             continue
         if k == "se2" and j == 2 and abs(a) == math.pi and abs(b) == math.pi:
             continue
+        if k == "se2" and j == 2 and math.isfinite(a) and math.isfinite(b) and R.ang_diff(a, b) <= 4 * R.EPS * math.pi:
+            # re-normalising an angle that is already in range need not be the identity to the last bit (an arctan2-based wrap is not): the same
+            # angle to rounding is the same pose
+            continue
         return False
     return True
 
